@@ -526,7 +526,7 @@ def run_delta_shapes(c, p, np, ce):
         "down": lambda n: [1000 - 17 * i for i in range(n)],
         "extremes": lambda n: [(lo, hi, 0, -1, 1, hi, lo)[i % 7] for i in range(n)],
         # 20-bit magnitudes: every miniblock needs < 29 bits
-        "table": lambda n: [((TABLE[i] >> 5) & 0xFFFFF) - 0x80000 for i in range(n)],
+        "table": lambda n: [((TABLE[i % 4096] >> 5) & 0xFFFFF) - 0x80000 for i in range(n)],
     }
     counts = [p["count"]]
     for name, f in series.items():
